@@ -181,6 +181,10 @@ func CodeBlocks() []TextCase {
 		"label":           " goto done; done: p.N++ ",
 		"percent":         ` _ = fmt.Sprintf("%d%%", 1) `,
 		"modulo":          ` p.N = (p.N + 1) % 3; p.N %= 2 `,
+		"quote-rune":      ` if p.N == '"' { p.N++ } else { p.N--; _ = "other" } `,
+		"quote-raw":       " _ = `\"`; if p.N > 0 { p.N = 0 }; _ = \"x\" ",
+		"quote-comment":   " /* \" */ if p.N > 0 { p.N = 0 } /* \" */ ",
+		"brace-strings":   ` _ = "{"; _ = "}"; _ = '{'; _ = '}' `,
 		"unicode":         ` _ = "é汉😀" `,
 		"empty":           " ",
 		"number-literals": " _ = 0X1F + 0B11 + 0O17; _ = 1E3; _ = 0XABCp-2 ",
